@@ -770,6 +770,12 @@ func replayCase(sub string, raw json.RawMessage) string {
 			return bad(err)
 		}
 		return checkOne(c)
+	case "iterfn":
+		var c itfCase
+		if err := json.Unmarshal(raw, &c); err != nil {
+			return bad(err)
+		}
+		return checkIterFn(c)
 	case "interleave":
 		var c ilvCase
 		if err := json.Unmarshal(raw, &c); err != nil {
@@ -1155,6 +1161,14 @@ func TestC07(t *testing.T) {
 	}
 	rec.Exhaustive("Next past the end / past an error value: fixed programs and error sites x contexts x guard forms", true)
 
+	if tooMany() {
+		return
+	}
+
+	// ------------------------------------------------------------------
+	// (E4a) Go iterator functions (WithIterFunction + NewIter) that yield
+	// error values, in every context, advanced past every error and the end
+	iterFnEnum()
 	if tooMany() {
 		return
 	}
